@@ -16,6 +16,7 @@ package http
 import (
 	"bytes"
 	"context"
+	"io"
 	"io/ioutil"
 	"math/rand"
 	"net"
@@ -138,11 +139,21 @@ func (h *Handler) ServeHTTP(response http.ResponseWriter, request *http.Request)
 			return
 		}
 	}
-	data, err := readAll(request.Body, request.ContentLength)
+	var body io.Reader = request.Body
+	if request.ContentLength < 0 {
+		// no declared length (chunked): read at most one byte more than allowed
+		body = io.LimitReader(request.Body, int64(h.Service.MaxRequestLength)+1)
+	}
+	data, err := readAll(body, request.ContentLength)
 	if err != nil {
 		h.onError(response, request, err)
 		_ = request.Body.Close()
 		response.WriteHeader(http.StatusBadRequest)
+		return
+	}
+	if len(data) > h.Service.MaxRequestLength {
+		_ = request.Body.Close()
+		response.WriteHeader(http.StatusRequestEntityTooLarge)
 		return
 	}
 	if err = request.Body.Close(); err != nil {
@@ -280,6 +291,10 @@ func (h *Handler) ServeFastHTTP(ctx *fasthttp.RequestCtx) {
 	}
 	serviceContext := h.getFastHTTPServiceContext(ctx)
 	body := ctx.Request.Body()
+	if len(body) > h.Service.MaxRequestLength {
+		ctx.SetStatusCode(fasthttp.StatusRequestEntityTooLarge)
+		return
+	}
 	request := make([]byte, len(body))
 	copy(request, body)
 	result, err := h.Service.Handle(core.WithContext(context.Background(), serviceContext), request)
